@@ -25,38 +25,21 @@ impl FlowControl {
     /// Returns a future that completes when there is space available.
     /// The returned value contains how much is available.
     pub async fn wait_for_available_space(&self) {
-        // Check if we have space available right now, and if not,
-        // which of the limits is holding us back.
-        let Some(mut limit) = self.exceeded_limit() else {
+        // Check if we have space available right now.
+        // Flow control doesn't actually trigger that frequently, so checking twice
+        // is acceptable.
+        if self.has_available_space() {
             return;
-        };
+        }
 
         loop {
             // We didn't have space available; set up a notification
             // so we can wait for it and check again.
             let notified = self.notifier.notified();
-            limit = match self.still_exceeded(limit) {
-                Some(limit) => limit,
-                None => return,
-            };
-            notified.await;
-        }
-    }
-
-    /// Re-checks after having been held back by the given limit.
-    ///
-    /// Flow control doesn't actually trigger that frequently, but when it does every
-    /// change wakes every waiter, so we avoid loading more than we have to.
-    fn still_exceeded(&self, limit: Limit) -> Option<Limit> {
-        match limit {
-            // The bytes have not been looked at yet, do the full check.
-            Limit::Messages => self.exceeded_limit(),
-            // The messages limit is checked before the bytes limit, so
-            // the bytes are all that we are waiting for.
-            Limit::Bytes => {
-                let outstanding_bytes = self.outstanding_bytes.load(Ordering::Acquire);
-                (outstanding_bytes >= self.max_outstanding_bytes).then_some(Limit::Bytes)
+            if self.has_available_space() {
+                return;
             }
+            notified.await;
         }
     }
 
@@ -85,30 +68,18 @@ impl FlowControl {
     /// This uses atomic load operations. It is acceptable that we go above
     /// the limits.
     pub fn has_available_space(&self) -> bool {
-        self.exceeded_limit().is_none()
-    }
-
-    /// Returns the limit that has been reached, if any.
-    fn exceeded_limit(&self) -> Option<Limit> {
-        let outstanding_messages = self.outstanding_messages.load(Ordering::Acquire);
-        if outstanding_messages >= self.max_outstanding_messages {
-            return Some(Limit::Messages);
+        let available_messages = self.outstanding_messages.load(Ordering::Acquire);
+        if available_messages >= self.max_outstanding_messages {
+            return false;
         }
 
-        let outstanding_bytes = self.outstanding_bytes.load(Ordering::Acquire);
-        if outstanding_bytes >= self.max_outstanding_bytes {
-            return Some(Limit::Bytes);
+        let available_bytes = self.outstanding_bytes.load(Ordering::Acquire);
+        if available_bytes >= self.max_outstanding_bytes {
+            return false;
         }
 
-        None
+        true
     }
-}
-
-/// The limits that can hold back a subscriber.
-#[derive(Debug, Clone, Copy, PartialEq, Eq)]
-enum Limit {
-    Messages,
-    Bytes,
 }
 
 /// Provides flow control for a streaming pull subscriber.
